@@ -319,17 +319,21 @@ func checkWeighted(s stats.Sample, ee exactStats, label string) error {
 	if !sameF(lo, ee.min) || !sameF(hi, ee.max) {
 		return fmt.Errorf("%s: Bounds = %v,%v, bounds of the expanded sample %v,%v", label, lo, hi, ee.min, ee.max)
 	}
+	// the weighted geometric mean is claimed when the expanded sample is positive: values of
+	// weight zero are not part of it, whatever their sign
 	allPos := true
-	for _, x := range s.Xs {
-		if x <= 0 {
+	for i, x := range s.Xs {
+		if x <= 0 && s.Weights[i] != 0 {
 			allPos = false
 		}
 	}
-	if allPos { // the weighted geometric mean is claimed for positive data
+	if allPos {
 		tolGeo := cF * n * eps * (1 + ee.maxLn) * ee.geo
 		maxLn := 0.0
-		for _, x := range s.Xs {
-			maxLn = math.Max(maxLn, math.Abs(math.Log(x)))
+		for i, x := range s.Xs {
+			if s.Weights[i] != 0 {
+				maxLn = math.Max(maxLn, math.Abs(math.Log(x)))
+			}
 		}
 		if !isNaN(ee.geo) {
 			tolGeo = cF * n * eps * (1 + maxLn) * ee.geo
@@ -638,6 +642,19 @@ func TestDescriptive(t *testing.T) {
 		c := &DescCase{Xs: drawData(rt, n, rapid.Bool().Draw(rt, "positive"))}
 		if rapid.Bool().Draw(rt, "weighted") {
 			c.W = drawWeights(rt, n)
+			if rapid.IntRange(0, 2).Draw(rt, "signOfIgnored") == 0 {
+				// the values of weight zero are not part of the sample: make them zero or
+				// negative (also in otherwise positive data)
+				for i := range c.Xs {
+					if c.W[i] == 0 {
+						if rapid.Bool().Draw(rt, "ignoredZero") {
+							c.Xs[i] = 0
+						} else {
+							c.Xs[i] = -math.Abs(c.Xs[i])
+						}
+					}
+				}
+			}
 		}
 		c.Perm = gen.Perm(rt, n, "perm")
 		checkDesc.Run(rt, c)
